@@ -786,11 +786,15 @@ def branch_scene_jobs(tier, algo_of_module, n_quick=16):
         t = sc["t"]
         m = max(abs(c) for c in t) or 1.0
         u = [(1.0 if c > 0 else -1.0) if abs(c) >= 0.5 * m else 0.0 for c in t]
-        sweep = {"kind": "T1", "u": u, "o": t, "R": sc["R"], "range": 0.75}
         algo = algo_of_module.get(sc["module"])
         if algo is None:
             continue
-        J.append({"family": "branch_scene:%s" % algo,
-                  "args": {"a": {"type": "box", "size": sc["sa"]}, "b": {"type": "box", "size": sc["sb"]}, "sweep": sweep,
-                           "a_pose": 0, "swap": bool(sc["swap"]), "algo": algo}})
+        us = [u] if tier == "quick" else [u, [u[1], u[2], u[0]], [1.0, -1.0, 0.5], [0.0, 1.0, 1.0]]
+        for uu in us:
+            if not any(uu):
+                continue
+            sweep = {"kind": "T1", "u": uu, "o": t, "R": sc["R"], "range": 0.75}
+            J.append({"family": "branch_scene:%s" % algo,
+                      "args": {"a": {"type": "box", "size": sc["sa"]}, "b": {"type": "box", "size": sc["sb"]}, "sweep": sweep,
+                               "a_pose": 0, "swap": bool(sc["swap"]), "algo": algo}})
     return J
